@@ -15,13 +15,20 @@ CHECKS = {
        "through the proved Gaussian elimination; the Jerasure builder (modified Vandermonde with a point at infinity, pivot "
        "search, column scaling/elimination, two normalisation passes - modelled literally) keeps 'any d rows independent' "
        "through every operation, its pivot search never fails, its top is the identity and its first parity row/column are "
-       "ones. Leopard GF(2^8)/GF(2^16) are decided per configuration by running the proved checkers "
+       "ones. Leopard GF(2^8) and GF(2^16): C04_leo8_encode_all / C04_leo16_encode_all / C01_leo8_any_d_all / "
+       "C01_leo16_any_d_all - for EVERY admissible (d,p) (d + ceilPow2 p <= 256 resp. 65536) the executable schedule model "
+       "of Encode computes the systematic code of an explicit generalised Cauchy matrix v_g/(w_r - w_{m+c}) over GF256 / "
+       "GF65536, which is MDS (Lin-Chung-Han additive FFT proved correct: subspace polynomials, novel basis, butterfly "
+       "network = evaluation/interpolation; the literal radix-4 truncated loops refine the radix-2 network; the skew table "
+       "is proved structurally to hold the twiddle logarithms). In addition they are decided per configuration by running the proved checkers "
        "(C01_certGC, C01_leo8_cert, C01_leo16_cert: certificate = true -> MDS; Leopard's fields are GF256 / GF65536 under the "
        "Cantor map, C17leo_toGF / C17gf16_toGF, so an MDS image means any d symbols computed in Leopard's own arithmetic "
        "determine the message, C01_leo8_any_d / C01_leo16_any_d) in "
        "the compiled driver. Tie: generators extracted from the real encoder (Encode of unit vectors) must equal the model's.",
-  note=TB + " Modelled not verified: that Encode applies this generator column-wise (C03). Leopard: no general theorem that the FFT schedule "
-       "emits the Lagrange code (certificate per explored configuration; all 21,845 Leopard GF8 pairs in the thorough tier). Leopard GF16: "
+  note=TB + " Modelled not verified: that Encode applies this generator column-wise (C03). Leopard: the general theorems are about the "
+       "schedule MODEL with the model's tables; the package is tied to it by the complete log/exp/skew table comparison, the "
+       "generator comparison per explored configuration (all 21,845 Leopard GF8 pairs in the thorough tier) and C08's kernel "
+       "tie. Leopard GF16: "
        "certificate per explored configuration up to 400,000 generator entries, above that equality with the Lagrange closed "
        "form on sampled columns and C05's reconstructions.",
   design="4/C01"),
@@ -54,12 +61,16 @@ CHECKS = {
        "log/exp/product tables, evaluated by the kernel, are GF(2^8)/0x11D under the Cantor map; constants regenerated from "
        "the Go source are the published ones. C04_encodeSched_inRange / C05_reconSched_inRange: every step of the generated "
        "Encode / Reconstruct schedule addresses rows and shards in range, for ALL (d,p), erasure sets and locator tables, so "
-       "C04_encode_local_all / _chunking_all / _linear_all hold with no per-configuration hypothesis. Tie: generators of the real encoders (all 21,845 GF8 pairs in the thorough tier, a "
+       "C04_encode_local_all / _chunking_all / _linear_all hold with no per-configuration hypothesis. "
+       "C04_leo8_encode_all / C04_leo16_encode_all: for every admissible (d,p), every shard length and content, every parity "
+       "symbol of the schedule model is the codeword coordinate of the explicit generalised Cauchy (shortened RS) generator "
+       "over Leopard's field in its Cantor basis, and that generator is MDS - no configuration is enumerated. Tie: generators of the real encoders (all 21,845 GF8 pairs in the thorough tier, a "
        "structured sample + GF16 grid in the quick tier) = schedule model = Lagrange closed form over nodes m..n-1; the "
        "remaining structural hypothesis (no read-before-write of work rows) decided per configuration; seeded encodes at "
        "sizes straddling the 32 KiB chunk, forced GF16, option sets; Leopard Verify flips.",
-  note=TB + " PARTIAL: that the schedule generators emit the Lin-Chung-Han transform is established per explored "
-       "configuration (equality with the closed form), not by a general theorem; xor-linearity of the table product is proved for both fields "
+  note=TB + " The general theorem is about the schedule model with the model's tables (initLUTs / initFFTSkew mirrored loop "
+       "by loop); the package is tied to it by complete table comparison, generators per explored configuration and seeded "
+       "encodes. xor-linearity of the table product is proved for both fields "
        "(C04_mulLinearOn_gf8 by kernel evaluation, C04_mulLinearOn_gf16 structurally), so C04_encode_linear_gf8/gf16 carry no "
        "algebraic hypothesis; SIMD butterflies = reference by C08's execution tie.",
   design="4/C04, 10.2"),
@@ -149,7 +160,8 @@ CHECKS = {
        "C10_leo8_cache: the same for the Leopard GF8 error-locator map (a mutex-guarded Go map keyed by cacheID: key proved to "
        "determine the erasure set, value proved a function of the key). Tie: harness "
        "built with -race; N in {2,8,48} goroutines x GOMAXPROCS in {1,4,16} share one encoder per codec / one StreamEncoder, "
-       "biased so that many miss and insert the same key at once; every answer compared with a sequential fresh-encoder oracle; "
+       "biased so that many miss and insert the same key at once, plus mixed Encode/Reconstruct callers with 64-256 KiB shards "
+       "(internal chunk workers and per-encoder scratch pools shared by callers using different matrices); every answer compared with a sequential fresh-encoder oracle; "
        "readers hash data shards during Encode/Verify; any race report fails the run.",
   note=TB + " Partial by nature: the theorem quantifies over schedules of the MODEL; a data race inside a step (unlocked "
        "access, a kernel reading a buffer another goroutine writes) is only observable by the race detector on sampled "
